@@ -124,6 +124,7 @@ pub fn c01_op(universe: u8) -> impl Strategy<Value = HOp> {
         3 => Just(HOp::MemEvictAll),
         2 => any::<u16>().prop_map(|h| HOp::DropHandle { h }),
         1 => Just(HOp::HoldIo),
+        1 => prop::bool::weighted(0.4).prop_map(|admit| HOp::Admission { admit }),
         1 => Just(HOp::ReleaseIo),
         7 => any::<u16>().prop_map(|i| HOp::CompleteIo { i }),
         2 => Just(HOp::Drain),
